@@ -21,7 +21,7 @@ def _runner_spec():
 def _pkg_runner():
     import prop_c20
     prop_c20._link_pkgs()       # Sema::new looks for `pkgs` next to an ancestor of the running executable
-    return common.build_runner('c18pkg', {'dora-frontend': 'dora-frontend', 'dora-bytecode': 'dora-bytecode'}, lock=True,
+    return common.build_runner('c18pkg', {'dora-frontend': 'dora-frontend', 'dora-bytecode': 'dora-bytecode', 'dora-compiler': 'dora-compiler'}, lock=True,
                                extra_deps=['bincode = "2.0.0-rc.3"'])
 
 
@@ -42,7 +42,8 @@ def _package_step(tier, pre_und):
             what = info.get('what', '')
             import re
             key = 'runner:' + re.sub(r'[^a-z_ ]', '', what.split(':')[0].lower())[:60]
-            payload = dict(failing_input=dict(kind='package', text_hex=info['text_hex'], rng=info['rng'], what=what, example=info.get('example')))
+            payload = dict(failing_input=dict(kind=('wire' if info.get('kind') == 'wire' else 'package'), text_hex=info['text_hex'], rng=info['rng'], what=what,
+                                              example=info.get('example'), seed=info.get('seed'), iter=info.get('iter')))
             pre_v.append((key, 'executable form of the package contract of C18 on the real crates: %s' % what.split(':')[0], payload, True))
         elif not info.get('programs_built'):
             pre_und.append('package runner built no program (generator templates rejected by the front end?)')
@@ -89,6 +90,7 @@ def run(tier):
                    'it is executed by the replay runner with a recording visitor generated from the trait/enum declarations (sampled, every callback compared with what was written)',
                    'the package clause (Program <-> bytes through the derived bincode impls; refusal of truncated / trailing / corrupted files) is NOT under contract (derive macros and bincode are outside both verifiers): '
                    'it is EXECUTED by the runner c18pkg on programs the real front end emits (decode(encode(p)) == p, same bytes again, every proper prefix and a trailing byte refused, corrupted files decoded in a child process: never a crash): sampled',
+                   'dora-compiler/src/wire.rs (hand-written BytecodeType encoding between compiler and runtime): decode(encode(t)) == t with nothing left over, executed on 20 000 generated types per run (sampled)',
                    'build-from-package == build-from-source', 'Dora-side readers (pkgs/boots/bytecode/reader.dora, deserializer.dora)',
                    'jump tables (add_const_jump_table / resolve_jump_tables: Switch targets live in the constant pool) are not under contract; the runner checks them on every generated sequence (sampled)', 'line-number table contents']
     pkg_v, pkg_info = _package_step(tier, pre_und)
@@ -104,6 +106,10 @@ def replay(rp):
         print('replay file carries no concrete input (no-failing-input-found); failed obligation: %s' % rp.get('obligation'))
         print(rp.get('verus_output', ''))
         return 1
+    if fi.get('kind') == 'wire':
+        rc, out, err, _ = common.run_cmd([_pkg_runner(), 'replay-wire', str(fi['seed']), str(fi['iter'])], timeout=600)
+        print(out.strip())
+        return 1 if rc != 0 else 0
     if fi.get('kind') == 'package':
         import shutil
         sc = common.scratch('c18pkg')
